@@ -1,5 +1,6 @@
 import RtenVerif.Lemmas.Overlap
 import RtenVerif.Lemmas.OverlapCompleteOps
+import RtenVerif.Lemmas.OverlapCompleteMerge
 import RtenVerif.Model.TensorBounds
 
 /-!
@@ -209,6 +210,19 @@ example : (1 : Nat) ≤ 2 ∧ ((2 : Nat) = 0 ∨ (2 - 1) * 2 < 5) ∧
     isContiguous ([(6, 1), (4, 30)] ++ (5, 6) :: []) = false ∧
     mayOverlap ([(6, 1), (4, 30)] ++ (2, 6 * 2) :: []) = false := by decide
 
+/-- **C08.T2c** One `merge_axes` step: an outer dimension `(n, t*m)` directly outside `(m, t)`
+(its stride is the inner stride times the inner size) fused into `(m*n, t)` keeps the layout
+accepted.  No side condition (any of the sizes may be 0 or 1). -/
+theorem c08_merge_accepted (pre post : List (Nat × Nat)) (t m n : Nat)
+    (h : mayOverlap (pre ++ (n, t * m) :: (m, t) :: post) = false) :
+    mayOverlap (pre ++ (m * n, t) :: post) = false :=
+  accept_merge h
+
+/-- Non-vacuity: a non-contiguous accepted layout whose two inner dims can be merged. -/
+example : mayOverlap ([(2, 1)] ++ (3, 4 * 5) :: (5, 4) :: []) = false ∧
+    isContiguous ([(2, 1)] ++ (3, 4 * 5) :: (5, 4) :: []) = false ∧
+    mayOverlap ([(2, 1)] ++ (5 * 3, 4) :: []) = false := by decide
+
 /-- Layouts reachable from a contiguous layout by view operations.  `dims` are
 `(size, stride)` pairs, outermost first.
 * `contig`  – any layout `is_contiguous` accepts (this includes every `reshaped` result of a
@@ -217,18 +231,26 @@ example : (1 : Nat) ≤ 2 ∧ ((2 : Nat) = 0 ∨ (2 - 1) * 2 < 5) ∧
 * `slice`   – `slice` / `slice_axis` / `split_at` of one axis with step `≥ 1`
   (`SliceItem::Range`; negative steps are rejected by `slice_layout` with `InvalidStep`);
 * `index`   – `index_axis` / `SliceItem::Index` / removing a size-1 axis;
-* `insertUnit` – `insert_axis` with whatever stride the implementation chooses. -/
+* `insertUnit` – `insert_axis` with whatever stride the implementation chooses;
+* `merge`   – one step of `merge_axes`: an outer dim whose stride is `inner stride * inner size`
+  is fused with the dim directly inside it.
+`Props/C08Views.lean` proves that the operations of C09's layout model
+(`Model/Layout.lean`: `permuted`, `transposed`, `moveAxis`, `trySlice`, `sliceAxis`,
+`indexAxis`, `splitAt`, `insertAxis`, `removeAxis`, `squeezed`, `mergedAxes`, `reshaped`) map
+`Derived` layouts to `Derived` layouts, so the abstraction is tied to the modelled code. -/
 inductive Derived : List (Nat × Nat) → Prop
   | contig {dims : List (Nat × Nat)} : isContiguous dims = true → Derived dims
   | perm {dims dims' : List (Nat × Nat)} : Derived dims → dims.Perm dims' → Derived dims'
   | slice {pre post : List (Nat × Nat)} {size stride size' step : Nat} :
-      Derived (pre ++ (size, stride) :: post) → 1 ≤ step →
-      (size' = 0 ∨ (size' - 1) * step < size) →
+      Derived (pre ++ (size, stride) :: post) →
+      (size' = 0 ∨ (1 ≤ step ∧ (size' - 1) * step < size)) →
       Derived (pre ++ (size', stride * step) :: post)
   | index {pre post : List (Nat × Nat)} {size stride : Nat} :
       Derived (pre ++ (size, stride) :: post) → 1 ≤ size → Derived (pre ++ post)
   | insertUnit {pre post : List (Nat × Nat)} {s : Nat} :
       Derived (pre ++ post) → Derived (pre ++ (1, s) :: post)
+  | merge {pre post : List (Nat × Nat)} {t m n : Nat} :
+      Derived (pre ++ (n, t * m) :: (m, t) :: post) → Derived (pre ++ (m * n, t) :: post)
 
 /-- **C08.T2** Completeness on the advertised class: every layout derived from a contiguous
 one by any finite sequence of permute / slice-with-positive-step / index / unit-axis
@@ -238,9 +260,13 @@ theorem c08_derived_accepted (dims : List (Nat × Nat)) (h : Derived dims) :
   induction h with
   | contig hc => exact c08_contig_accepted _ hc
   | perm _ hp ih => rw [← accept_perm hp]; exact ih
-  | slice _ hstep hfit ih => exact c08_slice_accepted _ _ _ _ _ _ hstep hfit ih
+  | slice _ hfit ih =>
+    rcases hfit with h0 | ⟨hstep, hfit⟩
+    · subst h0; simp [mayOverlap]
+    · exact c08_slice_accepted _ _ _ _ _ _ hstep (Or.inr hfit) ih
   | index _ hsz ih => exact c08_index_axis_accepted _ _ _ _ hsz ih
   | insertUnit _ ih => rw [c08_unit_axis]; exact ih
+  | merge _ ih => exact c08_merge_accepted _ _ _ _ _ ih
 
 /-- Non-vacuity: a transposed, stepped 3-D layout.  Start from the contiguous 4×5×6 layout,
 slice axis 1 with `::2` (5 → 3, stride 6 → 12), slice axis 2 with `1..6:3` (6 → 2, stride
@@ -251,10 +277,9 @@ example : Derived [(2, 3), (4, 30), (1, 99), (3, 12)] ∧
     mayOverlap [(2, 3), (4, 30), (1, 99), (3, 12)] = false := by
   refine ⟨?_, by decide, by decide⟩
   have h0 : Derived ([(4, 30)] ++ (5, 6) :: [(6, 1)]) := .contig (by decide)
-  have h1 : Derived ([(4, 30)] ++ (3, 6 * 2) :: [(6, 1)]) := .slice h0 (by omega) (by omega)
+  have h1 : Derived ([(4, 30)] ++ (3, 6 * 2) :: [(6, 1)]) := .slice h0 (by omega)
   have h2 : Derived ([(4, 30), (3, 12)] ++ (2, 1 * 3) :: []) :=
-    .slice (pre := [(4, 30), (3, 12)]) (post := []) (size := 6) (stride := 1) h1
-      (by omega) (by omega)
+    .slice (pre := [(4, 30), (3, 12)]) (post := []) (size := 6) (stride := 1) h1 (by omega)
   have h3 : Derived ([(4, 30)] ++ (1, 99) :: [(3, 12), (2, 3)]) :=
     .insertUnit (pre := [(4, 30)]) (post := [(3, 12), (2, 3)]) h2
   refine .perm h3 ?_
@@ -322,5 +347,84 @@ example : mayOverlap [(1, 1), (4, 1)] = false ∧
     TensorBounds.checkedMinDataLen (TensorBounds.setSize [(1, 1), (4, 1)] 0 2) = some 5 ∧
     TensorBounds.expandedLayout [(1, 1), (4, 1)] 16 0 2 = none := by
   decide
+
+/-- **C08.T4** Exact content of the modelled decision (C06's `TensorBounds.expandedLayout`):
+it returns a layout iff that layout is the grown one, its checked minimum storage length
+exists and fits the capacity, and the overlap check on the GROWN layout passes. -/
+theorem c08_expansion_iff (dims nl : List (Nat × Nat)) (capacity axis newSize : Nat) :
+    TensorBounds.expandedLayout dims capacity axis newSize = some nl ↔
+      nl = TensorBounds.setSize dims axis newSize ∧
+      ∃ m, TensorBounds.checkedMinDataLen nl = some m ∧ m ≤ capacity ∧ mayOverlap nl = false := by
+  unfold TensorBounds.expandedLayout
+  constructor
+  · intro h
+    split at h
+    · cases h
+    · rename_i m hm
+      split at h
+      · rename_i hok
+        cases h
+        exact ⟨rfl, m, hm, hok.1, hok.2⟩
+      · cases h
+  · rintro ⟨rfl, m, hm, hcap, hov⟩
+    simp [hm, hcap, hov]
+
+/-- **C08.T4** `has_capacity(axis, n) = true` ⇒ the grown tensor is alias-free. -/
+theorem c08_hasCapacity_grown_injective (dims : List (Nat × Nat)) (capacity axis newSize : Nat)
+    (h : TensorBounds.hasCapacity dims capacity axis newSize = true) (i j : List Nat)
+    (hi : ValidIdx (TensorBounds.setSize dims axis newSize) i)
+    (hj : ValidIdx (TensorBounds.setSize dims axis newSize) j)
+    (hoff : offset (TensorBounds.setSize dims axis newSize) i =
+      offset (TensorBounds.setSize dims axis newSize) j) : i = j := by
+  unfold TensorBounds.hasCapacity at h
+  obtain ⟨nl, hnl⟩ := Option.isSome_iff_exists.mp h
+  obtain ⟨rfl, _, hinj⟩ := c08_expansion_checks_grown_layout _ _ _ _ _ hnl
+  exact hinj i j hi hj hoff
+
+/-- **C08.T4** `append(axis, other)` succeeding (C06's `TensorBounds.append`) ⇒ the tensor it
+leaves behind has the grown layout, that layout passes the overlap check, and no two of its
+valid indices share an offset.  (`c06_T2_append` adds: and they all lie inside the storage,
+which still fits the capacity.) -/
+theorem c08_append_grown_injective (t t' : TensorBounds.Owned) (axis : Nat)
+    (other : List (Nat × Nat)) (h : TensorBounds.append t axis other = .ok t') :
+    t'.dims = TensorBounds.setSize t.dims axis
+      (TensorBounds.sizeAt t.dims axis + TensorBounds.sizeAt other axis) ∧
+    mayOverlap t'.dims = false ∧
+    ∀ i j, ValidIdx t'.dims i → ValidIdx t'.dims j → offset t'.dims i = offset t'.dims j →
+      i = j := by
+  unfold TensorBounds.append at h
+  split at h
+  · cases h
+  · split at h
+    · cases h
+    · split at h
+      · cases h
+      · rename_i nl hnl
+        cases h
+        exact c08_expansion_checks_grown_layout _ _ _ _ _ hnl
+
+/-- **C08.T4** (completeness of expansion) The overlap half of the decision never refuses a
+grown layout of the advertised class: if the grown layout is `Derived` (e.g. contiguous, as
+for a `with_capacity` tensor grown along its expansion axis, or any permuted / sliced view of
+one) then `has_capacity` is decided by the storage length alone. -/
+theorem c08_expansion_of_derived (dims : List (Nat × Nat)) (capacity axis newSize m : Nat)
+    (hd : Derived (TensorBounds.setSize dims axis newSize))
+    (hm : TensorBounds.checkedMinDataLen (TensorBounds.setSize dims axis newSize) = some m) :
+    TensorBounds.hasCapacity dims capacity axis newSize = decide (m ≤ capacity) := by
+  have hov := c08_derived_accepted _ hd
+  unfold TensorBounds.hasCapacity TensorBounds.expandedLayout
+  simp only [hm, hov, and_true]
+  by_cases hc : m ≤ capacity <;> simp [hc]
+
+/-- Non-vacuity: `with_capacity([3,4], 0)` = shape `[0,4]` strides `[4,1]`, capacity 12; growing
+axis 0 to 3 gives the contiguous (hence `Derived`) `[3,4]`, min length 12, accepted; to 4 it
+is refused for capacity only. -/
+example : Derived (TensorBounds.setSize [(0, 4), (4, 1)] 0 3) ∧
+    TensorBounds.checkedMinDataLen (TensorBounds.setSize [(0, 4), (4, 1)] 0 3) = some 12 ∧
+    TensorBounds.hasCapacity [(0, 4), (4, 1)] 12 0 3 = true ∧
+    TensorBounds.hasCapacity [(0, 4), (4, 1)] 12 0 4 = false ∧
+    TensorBounds.append ⟨[(0, 4), (4, 1)], 0, 12⟩ 0 [(2, 0), (4, 0)] =
+      .ok ⟨[(2, 4), (4, 1)], 8, 12⟩ := by
+  refine ⟨.contig (by decide), by decide, by decide, by decide, by decide⟩
 
 end RtenVerif.Overlap
